@@ -1,2 +1,339 @@
-/- placeholder: the C20 driver is not built yet -/
-def main : IO Unit := IO.println "C20: driver not built yet"
+/- C20 line-protocol driver: prints `model <TAB> spec` for each case line.
+
+   element kinds  t=[k,..]: 0 int, 1 instrumented (copy counted, move leaves -1), 2 move-only, 3 copy-only, 4 int&, 5 int const
+   categories     0 l (lvalue), 1 c (const lvalue), 2 r (rvalue), 3 k (const rvalue)
+
+   pair  op=cmp e=int|dbl a=[x,y] b=[u,v]                       -> six bits  == != < <= > >=   (dbl: 9 is NaN)
+   pair  op=<O> t=[k1,k2] a=[x,y] b=[u,v]                       -> r=[..] a=[..] b=[..] cp=N | n/a
+   tuple op=<O> t=[k,..] a=[..] b=[..]                          -> same;  op=eq -> bit
+         O: ctor ctorr copy move assign massign swap fswap selfswap make maker get getc getr getcr sb mft mftr fwd tie
+            conv convr cassign cmassign (pair of int only)
+   tuple op=apply q=Q a=[..]                                    -> r=N log=L
+   tcat  t=K q=0|2 ts=[n1,..] v=[flattened values]              -> r=[..] a=[..] cp=N
+   invoke f=fn|fptr|lam|fob|memfn|memdata c=Q o=obj|refw|ptr|der|dptr x=[..] xc=[..] v=N   -> r=N log=L
+   fref   f=fn|fptr|lam|fob c=0|1 act=call|copy x=[..] xc=[..]   -> r=N log=L cp=N
+   ifn2   x=[a,b,c] xc=[q]                                       -> r=N log=L cp=N
+   rw     cst=0|1 act=call|copy|rebind x=[..] xc=[..]            -> r=N log=L
+   bf     f=fob|fn q=Q bl=0|1 b=[..] x=[..] xc=[..]               -> r=N log=L bcp=N
+   nf     q=Q p=0|1 x=[..] xc=[..]                                -> r=B log=L
+   new                                                           -> four empty inplace_function objects (3 = small capacity)
+   ifn op=ctor_empty|ctor_null|ctor_fn|ctor_copy|ctor_move|assign|massign|assign_fn|assign_null|swap|fswap|call|bool|eqnull
+       i=I [j=J] [ty=T id=N] [x=X]                               -> <res> e=[..] live=N log=L                      -/
+import Tetl.Proto
+import Tetl.C20.Model
+import Tetl.C20.Spec
+namespace Tetl.C20.Driver
+open Tetl Tetl.Proto Tetl.C20
+
+def ekOf : Nat → Option EK
+  | 0 => some .int | 1 => some .trk | 2 => some .mo | 3 => some .co | 4 => some .ref | 5 => some .cst | _ => none
+
+def catOf : Nat → Option Cat
+  | 0 => some .l | 1 => some .c | 2 => some .r | 3 => some .k | _ => none
+
+def Cat.letter : Cat → String
+  | .l => "l" | .c => "c" | .r => "r" | .k => "k"
+
+def fmtCall (c : Call) : String :=
+  let self := match c.self with | some q => Cat.letter q | none => "-"
+  let args := c.args.map fun (q, v) => (match q with | some q => Cat.letter q | none => "v") ++ toString v
+  s!"{c.tid}/{self}/{",".intercalate args}"
+
+def fmtLog (l : Log) : String := if l.isEmpty then "-" else ";".intercalate (l.map fmtCall)
+
+def fmtE {α : Type} (f : α → String) : Except Err α → String
+  | .ok a => f a
+  | .error e => e.fmt
+
+/-- result record of a pair/tuple value operation -/
+structure Res where
+  r : Option (List Int)
+  a : List Int
+  b : List Int
+  cp : Nat
+
+def Res.fmt (x : Res) : String :=
+  let r := match x.r with | some l => fmtList l | none => "-"
+  s!"r={r} a={fmtList x.a} b={fmtList x.b} cp={x.cp}"
+
+def zip3 (ks : List EK) (a b : List Int) : List El2 := (ks.zip (a.zip b))
+
+def valueKind : EK → Bool
+  | .int | .trk | .co => true
+  | _ => false
+
+/-- applicability of a value operation to the element kinds (the harness derives the same answer from the
+    std type's traits and checks at compile time that the etl type agrees) -/
+def applicable (op : String) (ks : List EK) : Bool :=
+  match op with
+  | "ctor" | "copy" | "getcr" | "mft" => ks.all (·.copyable)
+  | "assign" => ks.all (fun k => k.copyable && k.assignable)
+  | "massign" | "swap" | "fswap" | "selfswap" => ks.all (·.assignable)
+  | "make" => ks.all valueKind
+  | "maker" => ks.all (fun k => valueKind k || k == .mo)
+  | "fwd" | "tie" => ks.all (fun k => valueKind k || k == .mo)
+  | "conv" | "convr" | "cassign" | "cmassign" => ks.all (· == .int)
+  | _ => true
+
+/-- (model, spec) of a value operation -/
+def valueOp (op : String) (ks : List EK) (a b : List Int) : Option (Except Err Res × Res) :=
+  let e1 : List El := ks.zip a
+  let e2 : List El2 := zip3 ks a b
+  let copyR : Except Err Res × Res :=
+    (let m := copyAll e1; .ok ⟨some m.1, a, b, m.2⟩, let s := Spec.copy e1; ⟨some s.1, a, b, s.2⟩)
+  let moveR : Except Err Res × Res :=
+    (let m := moveAll e1; .ok ⟨some m.1, m.2.1, b, m.2.2⟩, let s := Spec.move e1; ⟨some s.1, s.2.1, b, s.2.2⟩)
+  match op with
+  | "ctor" | "copy" | "make" | "getcr" | "mft" | "conv" => some copyR
+  | "ctorr" | "move" | "maker" | "getr" | "mftr" | "convr" => some moveR
+  | "assign" | "cassign" =>
+    some (let m := assignAll e2; .ok ⟨none, m.1, b, m.2⟩, let s := Spec.assign e2; ⟨none, s.1, b, s.2⟩)
+  | "massign" | "cmassign" =>
+    some (let m := moveAssignAll e2; .ok ⟨none, m.1, m.2.1, m.2.2⟩, let s := Spec.moveAssign e2; ⟨none, s.1, s.2.1, s.2.2⟩)
+  | "swap" | "fswap" =>
+    some (let m := swapAll e2; .ok ⟨none, m.1, m.2.1, m.2.2⟩, let s := Spec.swap e2; ⟨none, s.1, s.2.1, s.2.2⟩)
+  | "selfswap" =>
+    -- `a.swap(a)`: both operands are the same object
+    let e := zip3 ks a a
+    some (let m := swapAll e; .ok ⟨none, m.1, b, m.2.2⟩, let s := Spec.swap e; ⟨none, s.1, b, s.2.2⟩)
+  | "get" | "getc" | "sb" | "fwd" | "tie" =>
+    some ((do let r ← getAll a; pure ⟨some r, a, b, 0⟩), ⟨some a, a, b, 0⟩)
+  | _ => none
+
+def bits (l : List Bool) : String := String.join (l.map fmtBool)
+
+def iLt (a b : Int) : Bool := decide (a < b)
+def iEq (a b : Int) : Bool := a == b
+
+def cats? (l : Line) (k : String) : Option (List Cat) := (l.natList? k).bind fun v => v.mapM catOf
+def kinds? (l : Line) (k : String) : Option (List EK) := (l.natList? k).bind fun v => v.mapM ekOf
+
+/-- forwarding arguments: value with category -/
+def fwdArgs (x : List Int) (xc : List Cat) : Option (List (Option Cat × Int)) :=
+  if x.length = xc.length then some ((xc.zip x).map fun (c, v) => (some c, v)) else none
+
+def valArgs (x : List Int) : List (Option Cat × Int) := x.map fun v => (none, v)
+
+def fmtRL (p : Int × Log) : String := s!"r={p.1} log={fmtLog p.2}"
+
+/-- a plain function taking ints by value cannot observe the category of its arguments -/
+def strip (p : Int × Log) : Int × Log := (p.1, p.2.map fun c => { c with args := c.args.map fun a => (none, a.2) })
+
+/-- split a flat value list into tuples of the given arities -/
+def splitBy : List Nat → List Int → List (List Int)
+  | [], _ => []
+  | n :: ns, v => v.take n :: splitBy ns (v.drop n)
+
+def objOf (o : String) (c : Cat) : Option ObjK :=
+  match o with
+  | "obj" | "der" => some (.obj c)
+  | "refw" => some (.refw c)
+  | "ptr" | "dptr" => some (.ptr c)
+  | _ => none
+
+structure DState where
+  m : Except Err St
+  s : Spec.ASt
+
+def nObj : Nat := 4
+
+/-- the harness can only count closures with a user-provided copy constructor / destructor (odd `ty`) -/
+def counted : Option Fn → Bool
+  | some f => f.ty % 2 == 1
+  | none => false
+
+def liveOf (st : St) : Nat :=
+  ((List.range nObj).filter fun k => counted (st.mem (.obj k))).length + (if counted (st.mem .tmp) then 1 else 0)
+
+/-- type-level facts the harness reports at run time (`typeq q=<name>`): whether the fact holds for the
+    headers as they are (after the fix-c20 commits), and whether the standard prescribes it.  This is a table,
+    not a model: value categories and element types are outside the value-level model (DESIGN §6). -/
+def typeFact : String → Option (Bool × Bool)
+  | "make_pair_unwraps_refwrap" => some (true, true)
+  | "make_tuple_unwraps_refwrap" => some (true, true)
+  | "tuple_cat_value_types" => some (true, true)
+  | "tuple_cat_keeps_ref" => some (false, true)
+  | "tuple_cat_keeps_nested" => some (false, true)
+  | "tuple_copy_assignable" => some (false, true)
+  | "tuple_move_assignable" => some (false, true)
+  | "tuple_get_by_type" => some (false, true)
+  | "tuple_structured_binding" => some (false, true)
+  | "pair_ref_copy_assignable" => some (true, true)
+  | _ => none
+
+def fmtM (st : St) : String :=
+  let e := (List.range nObj).map fun k => if (st.vt (.obj k)).isSome then (1 : Int) else 0
+  s!"e={fmtList e} live={liveOf st}"
+
+def fmtS (s : Spec.ASt) : String :=
+  let e := (List.range nObj).map fun k => if (s k).isSome then (1 : Int) else 0
+  s!"e={fmtList e} live={((List.range nObj).filter fun k => counted (s k)).length}"
+
+def fmtOut : Out → String
+  | .unit => "ok"
+  | .res .bad => "bad_function_call"
+  | .res (.ret r) => s!"r={r}"
+  | .flag b => s!"b={fmtBool b}"
+
+def parseIfn (l : Line) : Option Op :=
+  let i := l.nat? "i"
+  let j := l.nat? "j"
+  let conv (i j : Nat) : Bool := j == 3 && i != 3
+  let fn? : Option Fn := match l.nat? "ty", l.nat? "id" with
+    | some ty, some id => some { ty := ty, id := id, n := 0 }
+    | _, _ => none
+  match l.str? "op", i with
+  | some "ctor_empty", some i | some "ctor_null", some i => some (.ctorEmpty i)
+  | some "ctor_fn", some i => fn?.map (.ctorFn i)
+  | some "ctor_copy", some i => j.map fun j => .ctorCopy i j (conv i j)
+  | some "ctor_move", some i => j.map fun j => .ctorMove i j (conv i j)
+  | some "assign", some i => j.map fun j => .assignCopy i j (conv i j)
+  | some "massign", some i => j.map fun j => .assignMove i j (conv i j)
+  | some "assign_fn", some i => fn?.map (.assignFn i)
+  | some "assign_null", some i => some (.assignNull i)
+  | some "swap", some i | some "fswap", some i => j.map (.swap i)
+  | some "call", some i => (l.int? "x").map (.call i)
+  | some "bool", some i | some "eqnull", some i => some (.bool i)
+  | _, _ => none
+
+def step (st : DState) (l : Line) : DState × String :=
+  let bad := (st, "bad-op\tbad-op")
+  let out (m s : String) := (st, m ++ "\t" ++ s)
+  match l.op with
+  | "pair" | "tuple" =>
+    match l.str? "op", l.list? "a", l.list? "b" with
+    | some "cmp", some [x, y], some [u, v] =>
+      if l.op != "pair" then bad else
+      match l.str? "e" with
+      | some "int" =>
+        out (bits (Spec.modelRels iEq iEq iLt iLt (x, y) (u, v)))
+            (bits (Spec.pairRels iEq iEq (Spec.synth3 iLt) (Spec.synth3 iLt) (x, y) (u, v)))
+      | some "dbl" =>
+        out (bits (Spec.modelRels Spec.dEq Spec.dEq Spec.dLt Spec.dLt (x, y) (u, v)))
+            (bits (Spec.pairRels Spec.dEq Spec.dEq Spec.dCmp Spec.dCmp (x, y) (u, v)))
+      | _ => bad
+    | some "eq", some a, some b =>
+      if l.op != "tuple" || a.length != b.length then bad
+      else out (fmtBool (C20.tupleEq iEq a b)) (fmtBool (Spec.tupleEq a b))
+    | some "apply", some a, _ =>
+      match (l.nat? "q").bind catOf with
+      | some q => out (fmtE fmtRL (C20.apply (.fob 7 .l) q a)) (fmtRL (Spec.apply (.fob 7 .l) q a))
+      | none => bad
+    | some op, some a, some b =>
+      match kinds? l "t" with
+      | some ks =>
+        if ks.length != a.length || a.length != b.length then bad
+        else if (l.op == "pair" && a.length != 2) then bad
+        else if !applicable op ks then out "n/a" "n/a"
+        else match valueOp op ks a b with
+          | some (m, s) => out (fmtE Res.fmt m) s.fmt
+          | none => bad
+      | none => bad
+    | _, _, _ => bad
+  | "tcat" =>
+    match (l.nat? "t").bind ekOf, (l.nat? "q").bind catOf, l.natList? "ts", l.list? "v" with
+    | some k, some q, some ts, some v =>
+      if ts.isEmpty || ts.sum != v.length then bad else
+      let parts := splitBy ts v
+      let els : List El := v.map fun x => (k, x)
+      let rval := q == .r
+      let after := if rval then (moveAll els).2.1 else v
+      let cp := if rval then (moveAll els).2.2 else (copyAll els).2
+      let safter := if rval then (Spec.move els).2.1 else v
+      let scp := if rval then (Spec.move els).2.2 else (Spec.copy els).2
+      out (fmtE (fun r => s!"r={fmtList r} a={fmtList after} cp={cp}") (tupleCat parts))
+          s!"r={fmtList (Spec.tupleCat parts)} a={fmtList safter} cp={scp}"
+    | _, _, _, _ => bad
+  | "invoke" =>
+    match l.str? "f", (l.nat? "c").bind catOf, l.list? "x" with
+    | some f, some c, some x =>
+      let callee : Option (Callee × List (Option Cat × Int)) :=
+        match f with
+        | "fn" => some (.fn 1, valArgs x)
+        | "fptr" => some (.fn 2, valArgs x)
+        | "lam" => some (.fn 3, valArgs x)
+        | "fob" => (cats? l "xc").bind fun xc => (fwdArgs x xc).map fun a => (.fob 4 c, a)
+        | "memfn" => ((l.str? "o").bind fun o => objOf o c).map fun o => (.memfn 5 o, valArgs x)
+        | "memdata" => ((l.str? "o").bind fun o => objOf o c).bind fun o => (l.int? "v").map fun v => (.memdata o v, valArgs x)
+        | _ => none
+      match callee with
+      | some (cl, args) => out (fmtE fmtRL (invoke cl args)) (fmtRL (Spec.invoke cl args))
+      | none => bad
+    | _, _, _ => bad
+  | "fref" | "ifn2" =>
+    match l.list? "x", cats? l "xc" with
+    | some x, some xc =>
+      let f := if l.op == "ifn2" then "fob" else (l.str? "f").getD "?"
+      let c := if l.op == "ifn2" then some Cat.l else (l.nat? "c").bind catOf
+      match f, c, x, xc with
+      | "fob", some c, [a, b, d], [qa] =>
+        -- signature int(Trk, Trk&, Trk const&): the first argument is passed by value
+        let args : List (Option Cat × Int) := [(none, a), (some .l, b), (some .c, d)]
+        let cp := if qa == .l || qa == .c then 1 else 0
+        let tid := if l.op == "ifn2" then 8 else 4
+        out (fmtE fmtRL (functionRefCall (.fob tid c) args) ++ s!" cp={cp}") (fmtRL (Spec.functionRefCall (.fob tid c) args) ++ s!" cp={cp}")
+      | "fn", some _, _, _ => out (fmtE (fun p => fmtRL (strip p)) (functionRefCall (.fn 1) (valArgs x)) ++ " cp=0") (fmtRL (strip (Spec.functionRefCall (.fn 1) (valArgs x))) ++ " cp=0")
+      | "fptr", some _, _, _ => out (fmtE (fun p => fmtRL (strip p)) (functionRefCall (.fn 2) (valArgs x)) ++ " cp=0") (fmtRL (strip (Spec.functionRefCall (.fn 2) (valArgs x))) ++ " cp=0")
+      | "lam", some _, _, _ => out (fmtE (fun p => fmtRL (strip p)) (functionRefCall (.fn 3) (valArgs x)) ++ " cp=0") (fmtRL (strip (Spec.functionRefCall (.fn 3) (valArgs x))) ++ " cp=0")
+      | _, _, _, _ => bad
+    | _, _ => bad
+  | "rw" =>
+    match l.nat? "cst", l.str? "act", l.list? "x", cats? l "xc" with
+    | some cst, some act, some x, some xc =>
+      match fwdArgs x xc with
+      | some args =>
+        let tid := if act == "rebind" then 9 else 4
+        out (fmtE fmtRL (refWrapCall tid (cst == 1) args)) (fmtRL (Spec.refWrapCall tid (cst == 1) args))
+      | none => bad
+    | _, _, _, _ => bad
+  | "bf" =>
+    match l.str? "f", (l.nat? "q").bind catOf, l.nat? "bl", l.list? "b", l.list? "x" with
+    | some f, some q, some bl, some b, some x =>
+      let bcp := if bl == 1 && f == "fob" then b.length else 0
+      match f with
+      | "fob" =>
+        match (cats? l "xc").bind (fwdArgs x) with
+        | some args =>
+          out (fmtE fmtRL (bindFrontCall (fun q => .fob 6 q) q b args) ++ s!" bcp={bcp}")
+              (fmtRL (Spec.bindFrontCall (fun q => .fob 6 q) q b args) ++ s!" bcp={bcp}")
+        | none => bad
+      | "fn" =>
+        -- a function pointer taking ints by value: the categories of the bound arguments are not observable
+        out (fmtE (fun p => fmtRL (strip p)) (bindFrontCall (fun _ => .fn 2) q b (valArgs x)) ++ s!" bcp={bcp}")
+            (fmtRL (strip (Spec.bindFrontCall (fun _ => .fn 2) q b (valArgs x))) ++ s!" bcp={bcp}")
+      | _ => bad
+    | _, _, _, _, _ => bad
+  | "nf" =>
+    match (l.nat? "q").bind catOf, l.nat? "p", l.list? "x", cats? l "xc" with
+    | some q, some p, some x, some xc =>
+      match fwdArgs x xc with
+      | some args =>
+        let f (r : Bool × Log) : String := s!"r={fmtBool r.1} log={fmtLog r.2}"
+        out (fmtE f (notFnCall 4 q (p == 1) args)) (f (Spec.notFnCall 4 q (p == 1) args))
+      | none => bad
+    | _, _, _, _ => bad
+  | "typeq" =>
+    match (l.str? "q").bind typeFact with
+    | some (m, s) => out (fmtBool m) (fmtBool s)
+    | none => bad
+  | "new" => ({ m := .ok St.init, s := Spec.ASt.init }, s!"ok {fmtM St.init} log=-\tok {fmtS Spec.ASt.init} log=-")
+  | "ifn" =>
+    match parseIfn l with
+    | some op =>
+      let (m', ms) : Except Err St × String :=
+        match st.m with
+        | .error e => (.error e, e.fmt)
+        | .ok x =>
+          match C20.step x op with
+          | .ok (x', o, lg) => (.ok x', s!"{fmtOut o} {fmtM x'} log={fmtLog lg}")
+          | .error e => (.error e, e.fmt)
+      let (s', o, lg) := Spec.step st.s op
+      ({ m := m', s := s' }, ms ++ "\t" ++ s!"{fmtOut o} {fmtS s'} log={fmtLog lg}")
+    | none => bad
+  | _ => bad
+
+end Tetl.C20.Driver
+
+def main : IO Unit :=
+  Tetl.Proto.runDriver ({ m := .ok Tetl.C20.St.init, s := Tetl.C20.Spec.ASt.init } : Tetl.C20.Driver.DState)
+    Tetl.C20.Driver.step
